@@ -320,11 +320,26 @@ def r9_3(ctx: Ctx) -> RuleResult:
                 for leaf in value_leaves(a.value)
             ]
             bad = []
+            # a value computed by a local helper that is given the node and its children under their own names:
+            # what the helper returns, under the conditions it returns it
+            located = []
             for v in srcs:
+                helper = None
+                if isinstance(v, ast.Call) and isinstance(v.func, ast.Name) and not v.keywords:
+                    helper = next((g for g in ctx.repo.functions.values() if g.name == v.func.id and g.parent is not None
+                                   and (g.parent is f or g.parent is ct or g.parent is f.parent)), None)
+                if helper is not None and [path_of(a) for a in v.args] == [a.arg for a in helper.node.args.args] and not any(
+                        isinstance(n_, ast.Name) and isinstance(n_.ctx, ast.Store) and n_.id in {a.arg for a in helper.node.args.args}
+                        for n_ in ast.walk(helper.node)):
+                    rets = [r for r in ast.walk(helper.node) if isinstance(r, ast.Return) and r.value is not None]
+                    located.extend((helper, leaf) for r in rets for leaf in value_leaves(r.value))
+                else:
+                    located.append((f, v))
+            for g, v in located:
                 if isinstance(v, ast.Call) and (path_of(v.func) == "copy.copy" or callee_name(v) == "CachingFilterExpression"):
                     continue
                 # the original leaf may be passed through when it has no children
-                conds = path_conditions(f.node, v)
+                conds = path_conditions(g.node, v)
                 # the condition must *imply* that there are no children: an atomic
                 # conjunct, not one disjunct of an `or`
                 if any(ast.unparse(t).replace(" ", "") in ("len(children)==0", "notchildren") and b for t, b in conds) or any(
